@@ -62,6 +62,10 @@ def run(e: Engine, rep: Report):
              'pickle_dump on every path to their return; DiskOps.read_meta / '
              'read_env return the value of AioFile.load / pickle_load on '
              'every path')
+    rep.rule('R4.8', 'DiskOps.write_env is referenced only from '
+             'DiskStorage.write and its private helpers: the envelope file '
+             'is written once, later changes go to the meta file alone (one '
+             'rename per update)')
     rep.rule('R4.7', 'DiskOps.delete_env / delete_meta are referenced only '
              'from DiskStorage.remove')
     rep.not_decided += ['POSIX rename atomicity itself', 'page-cache '
@@ -74,6 +78,7 @@ def run(e: Engine, rep: Report):
     r45(e, rep)
     r46(e, rep)
     r47(e, rep)
+    r48(e, rep)
     rep.floor('R4.1', 6, 'file-system write sites / ordering obligations')
 
 
@@ -145,6 +150,25 @@ def r41(e: Engine, rep: Report):
     wr = [n for n in g.calls() if e.call_name(n) == '_write_piece']
     rn = [n for n in g.nodes if n.kind == 'call' and
           e.call_name(n) in ('rename', 'replace')]
+    # a publish that is not a rename: moving / copying the temp file onto
+    # the final path truncates the live file first when the two are on
+    # different file systems (table NON_ATOMIC_PUBLISH)
+    for n in g.nodes:
+        if n.kind == 'call' and e.call_name(n) in NON_ATOMIC_PUBLISH and \
+                len(n.ast.args) >= 2 and \
+                path_of(n.ast.args[1], n.frame) == 'self.path':
+            rep.evaluations += 1
+            rep.bad('R4.1', where, 'publish by `%s`' % n.text(50),
+                    'the final path is written by %s(), which is a rename '
+                    'only when source and destination are on one file '
+                    'system; otherwise it copies onto the live file: a '
+                    'crash during the copy leaves a truncated file under '
+                    'the final name (%s)' % (
+                        e.call_name(n), NON_ATOMIC_PUBLISH[e.call_name(n)]),
+                    loc=n.loc())
+            rn = rn or [None]
+    if rn == [None]:
+        return
     if not mk or not wr or not rn:
         rep.error('anchor vanished: mkstemp / _write_piece / rename in '
                   'AioFile.dump')
@@ -165,6 +189,14 @@ def r41(e: Engine, rep: Report):
         g, lambda n: ['mkstemp'] if n in mk else (
             ['write'] if n in wr else []))
     _r41_rest(e, rep, g, fx, where, mk, wr, rn, tmpvars, before)
+
+
+NON_ATOMIC_PUBLISH = {
+    'move': 'shutil.move falls back to copy + unlink across file systems',
+    'copy': 'copies onto the destination', 'copy2': 'copies onto the '
+    'destination', 'copyfile': 'copies onto the destination',
+    'copyfileobj': 'copies onto the destination',
+    'link': 'fails when the destination exists'}
 
 
 def tmp_names(g, mk):
@@ -579,6 +611,37 @@ def r46(e: Engine, rep: Report):
                           % '/'.join(prims))
 
 
+def r48(e: Engine, rep: Report):
+    """The envelope file is written once, when the message is stored.  Any
+    later change of a message goes to the meta file alone, so that every
+    update is one rename; an operation that rewrites both files cannot be
+    atomic, and a crash between the two renames leaves an envelope and a
+    meta file that do not belong together."""
+    n = 0
+    owners = common.owner_closure(e, DISK, {'write'})
+    for f in e.p.functions.values():
+        if not f.module.name.startswith('slimta'):
+            continue
+        for x in walk_own(f.node):
+            if isinstance(x, ast.Attribute) and x.attr == 'write_env' and \
+                    isinstance(x.ctx, ast.Load):
+                n += 1
+                rep.evaluations += 1
+                rep.check(f.cls is not None and f.cls.qname == DISK and
+                          f.name in owners, 'R4.8', f.qname,
+                          'use of write_env',
+                          '%s rewrites the envelope file of a stored '
+                          'message: together with the meta file that is two '
+                          'renames, and a crash between them leaves an '
+                          'envelope and delivered marks that do not belong '
+                          'together (a recipient is dropped or attempted '
+                          'again after the restart)' % f.qname,
+                          loc=f.loc(x), reason='only DiskStorage.write '
+                          'writes the envelope file')
+    if n < 1:
+        rep.error('anchor vanished: uses of write_env (%d < 1)' % n)
+
+
 def r47(e: Engine, rep: Report):
     n = 0
     for f in e.p.functions.values():
@@ -590,7 +653,9 @@ def r47(e: Engine, rep: Report):
                         x.ctx, ast.Load):
                 n += 1
                 rep.evaluations += 1
-                rep.check(f.qname == DISK + '.remove', 'R4.7', f.qname,
+                rep.check(f.cls is not None and f.cls.qname == DISK and
+                          f.name in common.owner_closure(e, DISK, {'remove'}),
+                          'R4.7', f.qname,
                           'use of %s' % x.attr,
                           '%s deletes message files outside '
                           'DiskStorage.remove: a file of a message that is '
